@@ -129,7 +129,7 @@ def read_crumb(path):
         return None, None, False
 
 
-def run_workers(ctx, jobs, hang_cpu_s=25):
+def run_workers(ctx, jobs, hang_cpu_s=75):
     """jobs: list of dict(argv, crumb, label, kind, first, count). Runs up to NPROC at a time.
     Returns list of dict(job, rc, died_at)."""
     pending = list(jobs)
